@@ -338,12 +338,13 @@ def run(ck, progs):
         from . import c15
         before = len(ck.instances)
         ck.attempt(c15.r15e, ck, prog)
+        ck.attempt(c15.r15g, ck, prog)
         for i in ck.instances[before:]:
             i["rule"] = "R06d"
         for v in ck.violations:
-            if v["rule"] == "R15e":
+            if v["rule"] in ("R15e", "R15g"):
+                v["key"] = v["key"].replace(v["rule"], "R06d")
                 v["rule"] = "R06d"
-                v["key"] = v["key"].replace("R15e", "R06d")
     return ("Lexical contract between readers and writers computed from the string literals and character constants in "
             "detect_alignment_format / read_* and in the functions reachable from each writer; bound of every store and "
             "copy into msa_seq.name; classification of every bounded string comparison in the library.")
